@@ -659,6 +659,19 @@ def do_export(model, x, state, labels):
     labels.add("pred_preserved_checked")
     if not np.array_equal(y_before, y_after, equal_nan=True):
       culprit = non_fixed_point(model)
+      if culprit.get("layer") is None:
+        # every stored weight is a fixed point of its own quantizer: then the
+        # export itself stored something else than q(prev) (or touched a
+        # weight it should not): name the first such layer
+        for layer in qlayers:
+          now = layer.get_weights()
+          ex = expect.get(layer.name)
+          if ex is not None and any(not _eq(a, b) for a, b in zip(now, ex)):
+            culprit = dict(lsig(layer), cause="stored!=q(prev)")
+            break
+          if ex is None and any(not _eq(a, b) for a, b in zip(now, prev[layer.name])):
+            culprit = dict(lsig(layer), cause="weights_rewritten")
+            break
       fails.append(("prediction_preserved",
                     dict(culprit, relation="pred_before==after"),
                     "%d of %d outputs changed by the export, max |diff| %r" % (
@@ -695,6 +708,12 @@ def do_export(model, x, state, labels):
               ls["bn_variant"] = lsig(model.get_layer(pairs[layer.name])).get(
                   "layer_variant")
         ls.update(nfps.get(lname, {}))
+        key = path.split("/")[-1].split(" ")[-1]
+        if key in ("bn_inv", "fused_bias") and lname in pairs and (
+            pairs[lname] in changed):
+          # consequence of the fused batch-norm's own weights being rewritten
+          ls.update(nfps.get(pairs[lname], {}))
+          ls["via_fused_bn"] = True
         fails.append(("idempotence",
                       dict(ls, relation="dict_unchanged_by_2nd_export",
                            key=path.split("/")[-1].split(" ")[-1],
